@@ -622,6 +622,12 @@ def gen_interrupt(rng: random.Random) -> dict:
         k = None if rng.random() < 0.6 else rng.randint(0, 3)
         node = {"name": iname, "kind": "interrupt", "params": params, "dataOuts": outs, "body": {"b": "handler", "k": k}}
         if rng.random() < 0.4:
+            # the handler's own parameter names differ from the names the graph (and the human) know the inputs by
+            ren = [[f"q{i}{j}", pn] for j, (pn, _) in enumerate(params) if j == 0 or rng.random() < 0.6]
+            rmap = {new: old for old, new in ren}
+            node["params"] = [[rmap.get(pn, pn), d] for pn, d in params]
+            node["inRen"] = ren
+        if rng.random() < 0.4:
             node["emits"] = [f"asked{i}"]
             if rng.random() < 0.7:
                 # a node ordered after the interrupt by its signal only
